@@ -545,6 +545,38 @@ def sc_ahb(name, parts, rc, expected, text):
     return Scenario("evaluate_ahb_expression_tree", name, {"expression": expr, "rc": rc, "expected": expected, "text": text}, slots, fn)
 
 
+def sc_ahb_par(name, evals, rc, expected, slow):
+    """evals: [(text, rc key, fc key)]: the AHB expressions `Muss [rc][fc]` evaluated concurrently, each task with its own entered text; `slow`: the tags that get a
+    yield-vector entry (the other awaitables do not suspend). Oracle: every evaluation reports the format-constraint verdict for ITS text."""
+    H = harness()
+    slots = [(tag, 0) for tag in slow]
+
+    def fn(sc, yields):
+        from ahbicht.expressions.ahb_expression_evaluation import evaluate_ahb_expression_tree
+        from ahbicht.expressions.ahb_expression_parser import parse_ahb_expression_to_single_requirement_indicator_expressions as parse
+
+        async def one(text, k, f):
+            H.text_var.set(text)
+            return await evaluate_ahb_expression_tree(parse(f"Muss [{k}][{f}]"))
+
+        async def main():
+            H.text_var.set("the caller's text")
+            return await asyncio.gather(*[one(*e) for e in evals])
+
+        H.reset(rc=rc, fc_expected=expected, yields=yields)
+        out = H.run(main)
+        leaks = [e for e in H.log if e[0] == "fc" and e[2] != e[3]]
+        if out[0] == "ok":
+            for (text, k, f), r in zip(evals, out[1]):
+                fr = r.format_constraint_evaluation_result
+                want = text == expected.get(f)
+                if fr.format_constraints_fulfilled is not want or (not want and repr(text) not in (fr.error_message or "")):
+                    leaks.append(("not-own", (text, k, f), f"fulfilled={want} for the text {text!r}", f"fulfilled={fr.format_constraints_fulfilled} message={fr.error_message!r}"))
+        return canon(out) + ("|LEAK " + repr(leaks) if leaks else ""), []
+
+    return Scenario("evaluate_ahb_expression_tree (several concurrently)", name, {"evaluations": [list(e) for e in evals], "rc": rc, "expected": expected}, slots, fn)
+
+
 # -- parse_expression_including_unresolved_subexpressions(resolve_packages=True)
 PKG = {"1P": ("[1] U [2]", ["1", "2"]), "2P": ("[3]", ["3"]), "3P": ("[4] O ([5] U [6])", ["4", "5", "6"]), "4P": ("[7][901]", ["7", "901"])}
 
@@ -830,6 +862,11 @@ def scenarios(ctx):
             S.append(sc_ahb(f"ahb{i}.{rep}", parts, rc, exp, "abc"))
     S.append(sc_ahb("ahb-raise", [("Muss", "1", None), ("Soll", "2", None), ("Kann", "3", None)],
                     {"1": "UNFULFILLED", "2": Exn("NotImpl"), "3": "FULFILLED"}, exp, "abc"))
+    # several AHB evaluations in flight, one format constraint, different entered texts (two of them the same): who finishes when must not matter to whose verdict it is
+    allf = {k: "FULFILLED" for k in RC_KEYS[:4]}
+    S.append(sc_ahb_par("ahb-par-texts", [("a", "1", "901"), ("bb", "2", "901"), ("bb", "3", "901")], allf, {"901": "bb"}, [("rc", "3"), ("fc", "901", "a"), ("fc", "901", "bb")]))
+    S.append(sc_ahb_par("ahb-par-texts2", [("bb", "1", "901"), ("a", "2", "901"), ("a", "3", "902"), ("bb", "4", "901")], allf, {"901": "bb", "902": "a"},
+                        [("rc", "4"), ("rc", "2"), ("fc", "901", "bb"), ("fc", "901", "a")]))
     # packages, also repeated
     S.append(sc_pkg("pkg1", ["1P", "8", "2P"]))
     S.append(sc_pkg("pkg2", ["1P", "2P", "1P"], prefix="Muss "))
